@@ -1,5 +1,6 @@
 pub mod amo;
 pub mod asyncp;
+pub mod cachesnap;
 pub mod common;
 pub mod containers;
 pub mod more;
